@@ -282,7 +282,7 @@ fn main() {
         "well-formed strided intervals with and without widening hints: 1-byte values against bounds (all kinds) and intersection \
          partners, sampled 2/4/8-byte values (bounds next to members/hints/sign boundaries; intersection partners built around a \
          common member, co-prime / power-of-two / huge strides; 8-byte partners whose strides have an lcm just below / at / \
-         above u64::MAX with start values of mixed sign next to the i64 bounds), DataDomain values with relative targets; non-trivial = refinement \
+         above u64::MAX with start values of mixed sign next to the i64 bounds, the only common candidate inside / at the ends / one stride outside of the partner's range), DataDomain values with relative targets; non-trivial = refinement \
          is satisfiable; distinct by (kind, inputs)",
     );
     if let Some(lines) = args.replay_lines() {
@@ -383,10 +383,28 @@ fn main() {
         let a = with_hints(&mut rng, 64, iva, i % 4 == 0);
         // the partner contains x, or (1 in 5) a value off the common residue class
         let x2 = if rng.chance(1, 5) {
-            let d = *rng.pick(&[1i128, -1, 2, gcd_u128(sa as u128, sb as u128) as i128, sa as i128, -(sb as i128)]);
+            let g = gcd_u128(sa as u128, sb as u128) as i128;
+            let d = *rng.pick(&[1i128, -1, 2, g, g + 1, g / 2 + 1, -(g - 1).max(1), sa as i128, -(sb as i128)]);
             sv(&bv(64, x.wrapping_add(d)))
         } else { x };
-        let ivb = interval_around(&mut rng, 64, x2, sb);
+        let mut ivb = interval_around(&mut rng, 64, x2, sb);
+        // placement of the (for lcm > u64::MAX: only) common candidate x2 relative to the partner's range:
+        // somewhere inside / first value / last value / one stride below the start / one stride above the end
+        let (lo, hi) = (smin(64), smax(64));
+        match rng.below(8) {
+            0 => { ivb.0 = x2; out.count("isect-boundary:cand-at-start"); }
+            1 => { ivb.1 = x2; out.count("isect-boundary:cand-at-end"); }
+            2 if x2 + sb as i128 <= ivb.1 => { ivb.0 = x2 + sb as i128; out.count("isect-boundary:cand-below-start"); }
+            3 if x2 - sb as i128 >= ivb.0 => { ivb.1 = x2 - sb as i128; out.count("isect-boundary:cand-above-end"); }
+            2 if x2 + sb as i128 <= hi => { ivb = (x2 + sb as i128, x2 + sb as i128, 0); out.count("isect-boundary:cand-below-single"); }
+            3 if x2 - sb as i128 >= lo => { ivb = (x2 - sb as i128, x2 - sb as i128, 0); out.count("isect-boundary:cand-above-single"); }
+            _ => {}
+        }
+        if ivb.0 == ivb.1 { ivb.2 = 0; } else { ivb.2 = sb; }
+        if ivb.1 < 0 && iva.1 < 0 { out.count("isect-boundary:negative-range"); }
+        if x2 != x && gcd_u128(sa as u128, sb as u128) > 1 && (x2 - x).rem_euclid(gcd_u128(sa as u128, sb as u128) as i128) != 0 {
+            out.count("isect-boundary:gcd-incompatible");
+        }
         let b = with_hints(&mut rng, 64, ivb, i % 4 == 1);
         let wit = if a.s <= x && x <= a.e && b.s <= x && x <= b.e { vec![x] } else { vec![] };
         emit_isect(&mut out, &a, &b, &wit, 16);
